@@ -76,7 +76,7 @@ theorem SimW.toSimW' {s : McSys σ} {r : RState σ} {a : AStore} (h : SimW s r a
   trace := h.trace
   pend := fun nd hnd _ pe hpe name => h.pend nd hnd pe hpe name
 
-theorem Sim.toSim' {s : McSys σ} {r : RState σ} (h : Sim s r) (hs : SortedTopo s) : Sim' s r := by
+theorem Sim.toSim' {s : McSys σ} {r : RState σ} (h : SimRel0 s r) (hs : SortedTopo s) : Sim' s r := by
   obtain ⟨a, ha⟩ := h
   exact ⟨a, ha.toSimW' hs⟩
 
